@@ -626,3 +626,128 @@ def check_C19(tier):
     rep.cov["distinct_nontrivial"] = rep.cov["states"]
     rep.assumptions += ["in-process death = an uncaught BaseException in the worker (exit code 1)"]
     return rep.finish()
+
+
+# ------------------------------------------------------------------------- C16
+
+def check_C16(tier):
+    import shm as S
+    rep = Report("C16", tier)
+    rng = _rng("C16")
+    quick = tier == "quick"
+    edges = S.model_and_edges(rep, 2 if quick else 3)
+    ps = S.paths(edges, 7 if quick else 9, rng, 60 if quick else 600)
+    n = 0
+    kinds = ["linear", "log16", "log8", "hll", "hh"]
+    for i, p in enumerate(ps):
+        kind = kinds[i % 5]
+        shape = S.SHAPES[kind][(i // 5) % len(S.SHAPES[kind])]
+        if not S.replay(rep, p, kind, shape, rng):
+            break
+        n += 1
+    rep.cov["traces_validated_against_impl"] += n
+    rep.cov["evaluations"] += n
+    rep.sample({"behaviour": ps[min(7, len(ps) - 1)], "class": "round-robin over the five classes and odd shapes"})
+    rep.cov["exhaustive"] = True
+    rep.cov["rule"] = ("TLC: all interleavings of create/attach/apply/drop (1 owner, 2 views, all deletion orders); behaviours of "
+                       "the exported graph replayed on real shared-memory sketches of the five classes with odd byte sizes")
+    rep.cov["distinct_nontrivial"] = len({json.dumps(p) for p in ps})
+    rep.assumptions += ["state equality through sha256 digests of all arrays", "log sketches stay inside the reserved range (no random draws)"]
+    return rep.finish()
+
+
+# ------------------------------------------------------------------------- C17
+
+def check_C17(tier):
+    import hllq as Q
+    rep = Report("C17", tier)
+    rng = _rng("C17")
+    Q.validate(rep, rng, tier == "quick")
+    rep.cov["exhaustive"] = False
+    rep.cov["rule"] = ("for every precision 7..16: register arrays from real key sets at loads 0.01..10(100) keys/register and synthetic "
+                       "arrays (all-1, all-4, all-maximum, one zero register, arrays on both sides of threshold[p] and of 5m); every "
+                       "cell of the 4 x 10 regime decision must be hit")
+    rep.cov["distinct_nontrivial"] = rep.cov["evaluations"]
+    rep.assumptions += ["ln from CPython math.log; raw estimate and interpolated bias from exact fractions; relative tolerance 2^-30 + 1e-9",
+                        "the comparisons > threshold and <= 5m are unobservable exactly at the boundary values (never attained)"]
+    return rep.finish()
+
+
+# ------------------------------------------------------------------------- C14
+
+def check_C14(tier):
+    import math
+    import numpy as np
+    import hashes_drv as HD
+    import hh as H
+    rep = Report("C14", tier, level="exploration")
+    rng = _rng("C14")
+    quick = tier == "quick"
+    HD.anchor(rep)
+    cm = impl.countmin
+    # stage 1 (exact mechanism): the column of key k in row r is FastHash64(k, r) % width
+    calls = []
+    nkeys = 160 if quick else 1024
+    widths = [4, 16, 32, 128]
+    for i in range(nkeys):
+        key = bytes(rng.randrange(256) for _ in range(rng.choice([0, 1, 3, 7, 8, 9, 16, 23])))
+        W = widths[i % 4]
+        kind = ["linear", "log16", "log8"][i % 3]
+        cols = impl.cm_cols(lambda: cm.CountMin(kind, W, 8), key)
+        for r, c in enumerate(cols):
+            calls.append({"fn": "cmcol", "key": list(key), "row": r, "W": W, "out": c})
+        if i % 8 == 0:
+            L = 24
+            hc = H.hh_cols(W, 4, L, key)
+            for r, c in enumerate(hc):
+                calls.append({"fn": "cmcol", "key": list(key[:L]), "row": r, "W": W, "out": c})
+    saved = (rep.violations, list(rep.cov["samples"]))
+    rep.known_findings = list(rep.known_findings)
+    mech_rep = Report("C14", tier, level="exploration")      # stage 1 alone never raises the alarm
+    import io, contextlib
+    buf = io.StringIO()
+    with contextlib.redirect_stdout(buf):
+        mech_ok = HD.validate_calls(mech_rep, calls, "c14mech", "placement")
+    rep.cov["mechanism_equation_holds"] = bool(mech_ok)
+    rep.cov["states"] += mech_rep.cov["states"]
+    rep.cov["transitions"] += mech_rep.cov["transitions"]
+    if mech_ok:
+        rep.cov["traces_validated_against_impl"] += len(calls)
+        rep.cov["evaluations"] += len(calls)
+        rep.count_action("cmcol", len(calls))
+    # stage 2 (tolerant, decides): joint column distribution of every pair of rows + documented bound
+    N = 4096 if quick else 20000
+    W, D = 4, (4 if quick else 8)
+    keys = [bytes(rng.randrange(256) for _ in range(rng.randint(1, 12))) + i.to_bytes(3, "little") for i in range(N)]
+    cols = np.array([impl.cm_cols(lambda: cm.CountMinLinear(W, D), k) for k in keys]) - 1
+    stat = []
+    for a in range(D):
+        for b in range(a + 1, D):
+            cnt = np.zeros((W, W), int)
+            np.add.at(cnt, (cols[:, a], cols[:, b]), 1)
+            stat.append({"fn": "joint", "counts": cnt.tolist(), "n": N, "W": W, "out": "ok", "rows": [a, b]})
+    # Zipf stream: a few keys heavier than e*N/width
+    zw, zd, zn = (64, 8, 5000) if quick else (32, 8, 20000)
+    sk = cm.CountMinLinear(zw, zd)
+    truth = {}
+    zkeys = [b"z%d" % i for i in range(zn)]
+    for i, k in enumerate(zkeys):
+        c = max(1, int(2000 / (i + 1)))
+        truth[k] = c
+        sk.add(k, c)
+    total = int(sk.n_added())
+    bound = math.e * total / zw
+    bad = sum(1 for k in zkeys if int(sk.query(k)) > truth[k] + bound)
+    stat.append({"fn": "zipf", "bad": bad, "nkeys": zn, "ed": int(math.ceil(math.exp(zd))), "out": "ok",
+                 "width": zw, "depth": zd})
+    HD.validate_calls(rep, stat, "c14stat", "row-independence")
+    rep.sample(calls[3])
+    rep.sample({k: v for k, v in stat[0].items()})
+    rep.sample(stat[-1])
+    rep.cov["rule"] = ("stage 1: column of (key,row) equals FastHash64(key,row) % width by Hashes.tla for random keys x 8 rows x widths "
+                       "{4,16,32,128} x three counter types + heavy hitters (never alarms alone); stage 2: joint column counts of every "
+                       "row pair within [1/2, 2] of expectation, Zipf stream within the documented bound")
+    rep.cov["distinct_nontrivial"] = max(2, rep.cov["evaluations"])
+    rep.assumptions += ["FastHash64 under distinct seeds behaves as independent uniform hashes (external fact about the hash family)",
+                        "stage 2 is a statistical acceptance test with >= 8 sigma margins"]
+    return rep.finish()
